@@ -1,6 +1,7 @@
 """C03 -- files written conform to the classic CDF-1/2/5 format specification."""
 from vlib.runner import Job
 from vlib.common import MPI, STUB_NOTE
+from props import C07 as _c07
 
 
 def jobs(tier):
@@ -31,6 +32,10 @@ def jobs(tier):
                        assumptions=["ncmpio_hdr_len_NC cut (symbolic header size)", "redefinition: the old schema is a prefix of the "
                                     "new one with unchanged variable sizes (variables can only be appended)",
                                     "every variable has >= 1 element per record (dimension lengths are positive)"]))
+    for j in _c07.jobs(tier):          # data-mode metadata updates never grow the header (shared with C07.c)
+        if "put_att" in j.oid:
+            j.oid = j.oid.replace("C07.c.", "C03.f.")
+            out.append(j)
     return out
 
 
@@ -40,5 +45,5 @@ MANIFEST = dict(
          "creation and for redefinition from any earlier layout: areas in definition order, aligned, non-overlapping, alignment and "
          "free space honoured, single-record-variable packing rule, monotone under redefinition, CDF-1 offset limit.",
     note="Only the layout rules of C03 are claimed by these jobs. The header byte encoder (hdr_put_NC vs the format grammar), the "
-         "library's reports (inq_header_size etc.) and 'nothing of a clobbered file survives' are not covered yet; the seeded change "
-         "C03-putatt-datamode-wider-type (header growth in data mode) is NOT detected by this check.")
+         "library's reports (inq_header_size etc.) and 'nothing of a clobbered file survives' are not covered yet; attribute overwrite in data mode never growing the "
+         "header is decided by the shared put_att job (C03.f).")
